@@ -61,7 +61,7 @@ func (m *cmdModel) takeKind(c *Ctx, ci ssa.CallInstruction) (kind string, key ss
 		return "", nil, false
 	}
 	args := ci.Common().Args
-	return c.refKindName(args[1]), args[2], true
+	return c.refKindOf(args[1], 0), args[2], true
 }
 
 func (m *cmdModel) releaseKind(c *Ctx, ci ssa.CallInstruction) (kind string, key ssa.Value, ok bool) {
@@ -69,7 +69,43 @@ func (m *cmdModel) releaseKind(c *Ctx, ci ssa.CallInstruction) (kind string, key
 		return "", nil, false
 	}
 	args := ci.Common().Args
-	return c.refKindName(args[1]), args[2], true
+	return c.refKindOf(args[1], 0), args[2], true
+}
+
+// refKindOf names the reservation kind denoted by v: a constant, or a parameter / captured parameter of a
+// helper that every call site binds to the same constant.
+func (c *Ctx) refKindOf(v ssa.Value, depth int) string {
+	if depth > 5 {
+		return ""
+	}
+	if n := c.refKindName(v); n != "" {
+		return n
+	}
+	v = strip(v)
+	switch x := v.(type) {
+	case *ssa.Parameter:
+		idx := paramIndex(x)
+		kind := ""
+		for _, site := range c.CallersOf(x.Parent()) {
+			args := site.Common().Args
+			if idx >= len(args) {
+				return ""
+			}
+			k := c.refKindOf(args[idx], depth+1)
+			if k == "" || (kind != "" && k != kind) {
+				return ""
+			}
+			kind = k
+		}
+		return kind
+	case *ssa.UnOp:
+		if x.Op == token.MUL {
+			if s := singleStore(x.X); s != nil {
+				return c.refKindOf(s, depth+1)
+			}
+		}
+	}
+	return ""
 }
 
 const (
@@ -93,120 +129,149 @@ func ruleR07a(c *Ctx) {
 	}
 	obl := newOblSet(c, rule)
 	defer obl.flush()
-	run := m.run
-	var execParam *ssa.Parameter
-	for _, p := range run.Params {
-		if sig, ok := p.Type().Underlying().(*types.Signature); ok && chanResultIdx(sig) >= 0 {
-			execParam = p
-		}
-	}
-	if execParam == nil {
-		obl.undecided("run:executor-parameter", run.Pos(), "no executor parameter")
-		return
-	}
-	kRes := "run:key-reserved-before-lookup-and-execution"
-	kRel := "run:reservation-released-by-defer-only"
-	obl.expect(kRes, run.Pos(), "with a non-empty key, take(referenceIks) precedes ReadLogWithIdempotencyKey and the executor on every path")
-	obl.expect(kRel, run.Pos(), "the reservation is released by a defer of run (after the persistence wait), never before the executor ran")
-	nTake := 0
-	var keyVal ssa.Value
-	// the key: argument of take in run
-	allCalls(run, func(ci ssa.CallInstruction) {
-		if k, key, ok := m.takeKind(c, ci); ok && k == "referenceIks" {
-			keyVal = key
-			nTake++
-		}
-	})
-	isKeyEmptyFact := func(f Fact) (empty bool, ok bool) {
-		s, isStr := constString(f.Y)
-		if !isStr || s != "" {
-			return false, false
-		}
-		if keyVal != nil && sameSource(f.X, keyVal) {
-			return f.Eq, true
-		}
-		if _, isIK := fieldRead(f.X, m.fIK); isIK {
-			return f.Eq, true
-		}
-		return false, false
-	}
-	pr := &PathRule{
-		DeferID: func(d *ssa.Defer) int {
-			if k, _, ok := m.releaseKind(c, d); ok && k == "referenceIks" {
-				return 0
-			}
-			return -1
-		},
-		RunDeferred: func(pc *PathCtx, s uint64, d *ssa.Defer) uint64 { return s | rvRELEASED },
-		Step: func(pc *PathCtx, s uint64, ins ssa.Instruction) uint64 {
-			ci, ok := ins.(ssa.CallInstruction)
-			if !ok {
-				return s
-			}
-			if k, _, ok := m.takeKind(c, ci); ok && k == "referenceIks" {
-				return s | rvTAKEN
-			}
-			if k, _, ok := m.releaseKind(c, ci); ok && k == "referenceIks" {
-				// direct (non-deferred) release
-				if s&rvPERSISTED == 0 {
-					obl.violate(kRel, ci.Pos(), "the idempotency-key reservation is released directly, before the executor ran and its log was persisted: a concurrent duplicate can pass the lookup", pc.Trail())
-				}
-				return s | rvRELEASED
-			}
-			if isCallTo(ci, m.readLogIK) && ifaceMethodOf(ci) != nil {
-				if s&rvTAKEN == 0 || s&rvRELEASED != 0 {
-					obl.violate(kRes, ci.Pos(), "the store is searched for the idempotency key on a path that does not hold the reservation of the key", pc.Trail())
-				}
-				return s | rvLOOKED
-			}
-			if ci.Common().Value == ssa.Value(execParam) {
-				if s&rvEMPTY == 0 && (s&rvTAKEN == 0 || s&rvLOOKED == 0 || s&rvRELEASED != 0) {
-					what := "without holding the reservation of the idempotency key"
-					if s&rvTAKEN != 0 && s&rvLOOKED == 0 {
-						what = "without having searched the store for the idempotency key"
-					}
-					obl.violate(kRes, ci.Pos(), "the executor runs "+what+" on a path where the key is not known to be empty: two requests with the same key can both take effect", pc.Trail())
-				}
-				return s
-			}
-			return s
-		},
-		Edge: func(pc *PathCtx, s uint64, from *ssa.BasicBlock, si int) (uint64, bool) {
-			for _, f := range pc.edgeFacts(from, si) {
-				if empty, ok := isKeyEmptyFact(f); ok {
-					if empty {
-						s |= rvEMPTY
-					} else {
-						s &^= rvEMPTY
-					}
-				}
-			}
-			return s, true
-		},
-		Exit: func(pc *PathCtx, s uint64, ins ssa.Instruction) {
-			if _, isRet := ins.(*ssa.Return); isRet && s&rvTAKEN != 0 && s&rvRELEASED == 0 {
-				// take failed path: `if err := take(); err != nil { return }` returns without owning the key
-				if !returnsAfterFailedTake(pc) {
-					obl.violate(kRel, ins.Pos(), "a path returns while still holding the idempotency-key reservation: the key can never be used again", pc.Trail())
-				}
-			}
-		},
-	}
-	c.RunPaths(run, 0, pr)
-	if nTake == 0 {
-		obl.violate(kRes, run.Pos(), "executionContext.run never reserves the idempotency key (no take(referenceIks, …))", nil)
-	}
-	// who else releases referenceIks?
+	nFns := 0
 	for _, fn := range m.fns {
-		if fn == run {
-			continue
-		}
+		var keyVal ssa.Value
 		allCalls(fn, func(ci ssa.CallInstruction) {
-			if k, _, ok := m.releaseKind(c, ci); ok && k == "referenceIks" {
-				obl.violate(kRel, ci.Pos(), "the idempotency-key reservation is released outside executionContext.run ("+fnName(fn)+")", nil)
+			if k, key, ok := m.takeKind(c, ci); ok && k == "referenceIks" {
+				keyVal = key
 			}
 		})
+		if keyVal == nil {
+			continue
+		}
+		nFns++
+		name := fnName(fn)
+		kRes := name + ":key-reserved-before-lookup-and-execution"
+		kRel := name + ":reservation-spans-persistence"
+		obl.expect(kRes, fn.Pos(), "with a non-empty key, take(referenceIks) precedes ReadLogWithIdempotencyKey and the execution on every path")
+		obl.expect(kRel, fn.Pos(), "the reservation is released only after the persistence wait of the log handed off under it (or when nothing was handed off)")
+		isKeyEmptyFact := func(f Fact) (empty bool, ok bool) {
+			s, isStr := constString(f.Y)
+			if !isStr || s != "" {
+				return false, false
+			}
+			if sameSource(f.X, keyVal) {
+				return f.Eq, true
+			}
+			if _, isIK := fieldRead(f.X, m.fIK); isIK {
+				return f.Eq, true
+			}
+			return false, false
+		}
+		release := func(pc *PathCtx, s uint64, pos token.Pos) uint64 {
+			if s&rvAPPENDED != 0 && s&rvWAITED == 0 {
+				pc.Note("key released at %s", c.pos(pos))
+				obl.violate(kRel, pos, "the idempotency-key reservation is released on a path that handed a log off but has not waited for its persistence: a concurrent duplicate passes the reservation, does not find the log in the store yet, and takes effect a second time", pc.Trail())
+			}
+			if s&rvTAKEN == 0 && s&rvEMPTY == 0 {
+				obl.violate(kRel, pos, "the idempotency-key reservation is released on a path that does not own it (take failed or was not called): the reservation of the in-flight request holding the key is dropped", pc.Trail())
+			}
+			return (s &^ rvTAKEN) | rvRELEASED
+		}
+		var takeCall *ssa.Call
+		pr := &PathRule{
+			DeferID: func(d *ssa.Defer) int {
+				if k, _, ok := m.releaseKind(c, d); ok && k == "referenceIks" {
+					return 0
+				}
+				return -1
+			},
+			RunDeferred: func(pc *PathCtx, s uint64, d *ssa.Defer) uint64 { return release(pc, s, d.Pos()) },
+			Step: func(pc *PathCtx, s uint64, ins ssa.Instruction) uint64 {
+				switch x := ins.(type) {
+				case *ssa.Call:
+					if k, _, ok := m.takeKind(c, x); ok && k == "referenceIks" {
+						takeCall = x
+						return (s | rvTAKEN) &^ rvRELEASED
+					}
+					if k, _, ok := m.releaseKind(c, x); ok && k == "referenceIks" {
+						return release(pc, s, x.Pos())
+					}
+					if isCallTo(x, m.readLogIK) && ifaceMethodOf(x) != nil {
+						if s&rvTAKEN == 0 {
+							obl.violate(kRes, x.Pos(), "the store is searched for the idempotency key on a path that does not hold the reservation of the key", pc.Trail())
+						}
+						return s | rvLOOKED
+					}
+					if _, _, ok := m.appendCall(c, x); ok {
+						if s&rvEMPTY == 0 && (s&rvTAKEN == 0 || s&rvLOOKED == 0) {
+							what := "without holding the reservation of the idempotency key"
+							if s&rvTAKEN != 0 {
+								what = "without having searched the store for the idempotency key"
+							}
+							obl.violate(kRes, x.Pos(), "the write is executed "+what+" on a path where the key is not known to be empty: two requests with the same key can both take effect", pc.Trail())
+						}
+						return (s | rvAPPENDED) &^ rvWAITED
+					}
+				case *ssa.UnOp:
+					if x.Op == token.ARROW {
+						if e, ok := x.X.(*ssa.Extract); ok {
+							if call, ok := e.Tuple.(*ssa.Call); ok {
+								if ci, _, ok := m.appendCall(c, call); ok && ci == e.Index {
+									return s | rvWAITED
+								}
+							}
+						}
+					}
+				}
+				return s
+			},
+			Edge: func(pc *PathCtx, s uint64, from *ssa.BasicBlock, si int) (uint64, bool) {
+				for _, f := range pc.edgeFacts(from, si) {
+					if empty, ok := isKeyEmptyFact(f); ok {
+						if empty {
+							s |= rvEMPTY
+						} else {
+							s &^= rvEMPTY
+						}
+					}
+					if isNilConst(f.Y) && !f.Eq {
+						// error edge of take: the key is not owned
+						if call, ok := f.X.(*ssa.Call); ok && takeCall != nil && call == takeCall {
+							s &^= rvTAKEN
+							s |= rvRELEASED
+						}
+						if e, ok := f.X.(*ssa.Extract); ok {
+							if call, ok := e.Tuple.(*ssa.Call); ok {
+								if _, ei, ok := m.appendCall(c, call); ok && ei == e.Index {
+									s &^= rvAPPENDED | rvWAITED
+								}
+							}
+						}
+					}
+				}
+				return s, true
+			},
+			Exit: func(pc *PathCtx, s uint64, ins ssa.Instruction) {
+				if _, isRet := ins.(*ssa.Return); isRet && s&rvTAKEN != 0 {
+					obl.violate(kRel, ins.Pos(), "a path returns while still holding the idempotency-key reservation: the key can never be used again", pc.Trail())
+				}
+			},
+		}
+		allCalls(fn, func(ci ssa.CallInstruction) {
+			if call, ok := ci.(*ssa.Call); ok {
+				if k, _, ok := m.takeKind(c, call); ok && k == "referenceIks" {
+					takeCall = call
+				}
+			}
+		})
+		c.RunPaths(fn, 0, pr)
 	}
+	if nFns == 0 {
+		obl.violate("floor:key-reservation", token.NoPos, "no function of package command reserves the idempotency key (take(referenceIks, …)): concurrent duplicates both pass the store lookup", nil)
+	}
+	// every hand-off reachable with a key goes through a reserving function: the functions that reserve must be
+	// on every path from the exported write methods to a hand-off. Checked as: run (the function every write
+	// goes through) reserves, or calls a function that does.
+	reserves := func(fn *ssa.Function) bool {
+		memo := map[*ssa.Function]int{}
+		return c.reachesStatic(fn, func(ci ssa.CallInstruction) bool {
+			k, _, ok := m.takeKind(c, ci)
+			return ok && k == "referenceIks"
+		}, memo, 0)
+	}
+	c.check(reserves(m.run), rule, "run:reserves-the-key", m.run.Pos(), "executionContext.run (through which every write goes) reserves the idempotency key, directly or through a callee", "executionContext.run no longer reserves the idempotency key")
 }
 
 // returnsAfterFailedTake: the current path's last blocks are the error branch of a take call.
@@ -477,6 +542,169 @@ func variadicElems(v ssa.Value) []ssa.Value {
 	return out
 }
 
+
+// returnedClosure: the function literal a call result denotes when the (static) callee returns one literal at
+// that result index on every return (a helper such as `reserve` returning its release function).
+func returnedClosure(c *Ctx, v ssa.Value) *ssa.Function {
+	if f := closureOf(v, 0); f != nil {
+		return f
+	}
+	call, idx := resultOf(v)
+	if call == nil {
+		return nil
+	}
+	var out *ssa.Function
+	for _, callee := range c.CalleesOf(call) {
+		for _, b := range callee.Blocks {
+			ret, ok := b.Instrs[len(b.Instrs)-1].(*ssa.Return)
+			if !ok || idx >= len(ret.Results) {
+				continue
+			}
+			r := ret.Results[idx]
+			// result cells
+			if u, ok := r.(*ssa.UnOp); ok {
+				if a, ok := u.X.(*ssa.Alloc); ok {
+					for _, ref := range *a.Referrers() {
+						if st, ok := ref.(*ssa.Store); ok && st.Addr == ssa.Value(a) {
+							if f := closureOf(st.Val, 0); f != nil {
+								if out != nil && out != f {
+									return nil
+								}
+								out = f
+							}
+						}
+					}
+					continue
+				}
+			}
+			if isNilConst(r) {
+				continue
+			}
+			f := closureOf(r, 0)
+			if f == nil || (out != nil && out != f) {
+				return nil
+			}
+			out = f
+		}
+	}
+	return out
+}
+
+// releasesKind: is ci a release of the given reservation kind — a direct Referencer.release call, or a call of a
+// function value whose body performs one?
+func (m *cmdModel) releasesKind(c *Ctx, ci ssa.CallInstruction, kind string) bool {
+	if k, _, ok := m.releaseKind(c, ci); ok {
+		return k == kind
+	}
+	cc := ci.Common()
+	if cc.IsInvoke() || cc.StaticCallee() != nil {
+		return false
+	}
+	f := returnedClosure(c, cc.Value)
+	if f == nil {
+		return false
+	}
+	found := false
+	allCalls(f, func(x ssa.CallInstruction) {
+		if k, _, ok := m.releaseKind(c, x); ok && k == kind {
+			found = true
+		}
+	})
+	return found
+}
+
+// helperTakeError: is v the error result of a call to a package helper that returns the error of its take?
+func (m *cmdModel) helperTakeError(c *Ctx, v ssa.Value, kind string) bool {
+	call, idx := resultOf(v)
+	if call == nil {
+		return false
+	}
+	for _, h := range c.CalleesOf(call) {
+		if fnPkgPath(h) != pkgCommand || h == m.take || idx != errResultIdx(h.Signature) || !m.reachesTake(c, h, kind) {
+			continue
+		}
+		cells := resultCells(h)
+		fromTake := func(x ssa.Value) bool {
+			for _, r := range roots(x, nil) {
+				if cl, ok := r.(*ssa.Call); ok && callsFn(cl, m.take) {
+					return true
+				}
+			}
+			return false
+		}
+		for _, b := range h.Blocks {
+			for _, ins := range b.Instrs {
+				switch x := ins.(type) {
+				case *ssa.Store:
+					if a, ok := x.Addr.(*ssa.Alloc); ok && cells[idx] == a && fromTake(x.Val) {
+						return true
+					}
+				case *ssa.Return:
+					if idx < len(x.Results) && fromTake(x.Results[idx]) {
+						return true
+					}
+				}
+			}
+		}
+	}
+	return false
+}
+
+// reachesTake: does fn (through static callees of the package) reach a take of this kind?
+func (m *cmdModel) reachesTake(c *Ctx, fn *ssa.Function, kind string) bool {
+	memo := map[*ssa.Function]int{}
+	return c.reachesStatic(fn, func(ci ssa.CallInstruction) bool {
+		k, _, ok := m.takeKind(c, ci)
+		return ok && k == kind
+	}, memo, 0)
+}
+
+// reservationKey: the value reserved in fn — the key argument of a direct take, or the argument passed to a
+// helper whose parameter is the key of its take.
+func (m *cmdModel) reservationKey(c *Ctx, fn *ssa.Function, kind string) ssa.Value {
+	var key ssa.Value
+	allCalls(fn, func(ci ssa.CallInstruction) {
+		if k, kv, ok := m.takeKind(c, ci); ok && k == kind {
+			key = kv
+			return
+		}
+		if key != nil {
+			return
+		}
+		for _, h := range c.CalleesOf(ci) {
+			if fnPkgPath(h) != pkgCommand || h == m.take {
+				continue
+			}
+			allCalls(h, func(x ssa.CallInstruction) {
+				if k, kv, ok := m.takeKind(c, x); ok && k == kind {
+					if p, ok := stripLoadOfParamCell(strip(kv)).(*ssa.Parameter); ok {
+						if i := paramIndex(p); i >= 0 && i < len(ci.Common().Args) {
+							key = ci.Common().Args[i]
+						}
+					}
+				}
+			})
+		}
+	})
+	return key
+}
+
+// inlineReservationHelpers: package functions that take or release reservations but do not themselves hand off.
+func (m *cmdModel) inlineReservationHelpers(c *Ctx, kind string) func(ci ssa.CallInstruction) []*ssa.Function {
+	return func(ci ssa.CallInstruction) []*ssa.Function {
+		var out []*ssa.Function
+		for _, f := range c.CalleesOf(ci) {
+			if fnPkgPath(f) != pkgCommand || f == m.take || f == m.release || m.appenders[f] || m.persisters[f] {
+				continue
+			}
+			if m.reachesTake(c, f, kind) {
+				out = append(out, f)
+			}
+		}
+		return out
+	}
+}
+
 // ---- R11a ------------------------------------------------------------------------------------
 
 func ruleR11a(c *Ctx) {
@@ -489,13 +717,17 @@ func ruleR11a(c *Ctx) {
 	defer obl.flush()
 	nFns := 0
 	for _, fn := range m.fns {
-		var keyVal ssa.Value
+		// the functions where reservation and write meet: they reach a take of the kind and hand a log off
+		hasHandoff := false
 		allCalls(fn, func(ci ssa.CallInstruction) {
-			if k, key, ok := m.takeKind(c, ci); ok && k == "referenceTxReference" {
-				keyVal = key
+			if _, _, ok := m.appendCall(c, ci); ok {
+				hasHandoff = true
 			}
 		})
-		// functions that hand a transaction log off must reserve the reference: exec's executor
+		if !hasHandoff || !m.reachesTake(c, fn, "referenceTxReference") {
+			continue
+		}
+		keyVal := m.reservationKey(c, fn, "referenceTxReference")
 		if keyVal == nil {
 			continue
 		}
@@ -513,11 +745,16 @@ func ruleR11a(c *Ctx) {
 				pc.Note("reference released at %s", c.pos(pos))
 				obl.violate(kSpan, pos, "the reference reservation is released on a path that handed the log off but has not waited for its persistence: a concurrent request with the same reference passes the store lookup and is committed too", pc.Trail())
 			}
+			if s&rvTAKEN == 0 {
+				pc.Note("release at %s without owning the reservation", c.pos(pos))
+				obl.violate(kSpan, pos, "the reference reservation is released on a path that does not own it (the take failed): the reservation of the in-flight request holding this reference is dropped, and a third request can pass both checks", pc.Trail())
+			}
 			return (s &^ rvTAKEN) | rvRELEASED
 		}
 		pr := &PathRule{
+			Inline: m.inlineReservationHelpers(c, "referenceTxReference"),
 			DeferID: func(d *ssa.Defer) int {
-				if k, _, ok := m.releaseKind(c, d); ok && k == "referenceTxReference" {
+				if m.releasesKind(c, d, "referenceTxReference") {
 					return 0
 				}
 				return -1
@@ -529,7 +766,7 @@ func ruleR11a(c *Ctx) {
 					if k, _, ok := m.takeKind(c, x); ok && k == "referenceTxReference" {
 						return s | rvTAKEN
 					}
-					if k, _, ok := m.releaseKind(c, x); ok && k == "referenceTxReference" {
+					if m.releasesKind(c, x, "referenceTxReference") {
 						return release(pc, s, x.Pos())
 					}
 					if isCallTo(x, m.getTxByRef) && ifaceMethodOf(x) != nil {
@@ -573,6 +810,15 @@ func ruleR11a(c *Ctx) {
 							s &^= rvEMPTY
 						}
 					}
+					// error edge of the take itself (or of a helper passing it on): the reference is not owned
+					if call, ok := f.X.(*ssa.Call); ok && isNilConst(f.Y) && !f.Eq {
+						if k, _, ok := m.takeKind(c, call); ok && k == "referenceTxReference" {
+							s &^= rvTAKEN
+						}
+					}
+					if isNilConst(f.Y) && !f.Eq && m.helperTakeError(c, f.X, "referenceTxReference") {
+						s &^= rvTAKEN
+					}
 					if e, ok := f.X.(*ssa.Extract); ok && isNilConst(f.Y) {
 						if call, ok := e.Tuple.(*ssa.Call); ok {
 							if lookup != nil && call == lookup && e.Index == 1 {
@@ -598,7 +844,7 @@ func ruleR11a(c *Ctx) {
 				return s, true
 			},
 			Exit: func(pc *PathCtx, s uint64, ins ssa.Instruction) {
-				if _, isRet := ins.(*ssa.Return); isRet && s&rvTAKEN != 0 && !returnsAfterFailedTake(pc) {
+				if _, isRet := ins.(*ssa.Return); isRet && s&rvTAKEN != 0 && pc.Fn() == fn {
 					obl.violate(kSpan, ins.Pos(), "a path returns while still holding the reference reservation: the reference can never be used again", pc.Trail())
 				}
 			},
